@@ -3,6 +3,7 @@ import SJ.Props.TypedSrc
 import SJ.Props.C09Stream
 import SJ.Props.StreamTyped
 import SJ.Props.C09LineCol
+import SJ.Props.C09Readers
 #print axioms SJ.Props.C09.c09_slice_reader
 #print axioms SJ.Props.C09.c09_str_slice_ignored
 #print axioms SJ.Props.C09.c09_str_slice_value
@@ -27,3 +28,14 @@ import SJ.Props.C09LineCol
 #print axioms SJ.Props.C09.c09_readers_in_step
 #print axioms SJ.Props.C09.c09_untyped_line_col
 #print axioms SJ.Props.C09.c09_typed_line_col
+#print axioms SJ.Props.C09.c09_machine_string_steps
+#print axioms SJ.Props.C09.c09_slice_str_refines
+#print axioms SJ.Props.C09.c09_strread_str_refines
+#print axioms SJ.Props.C09.c09_io_str_refines
+#print axioms SJ.Props.C09.c09_io_str_state
+#print axioms SJ.Props.C09.c09_slice_ignore_refines
+#print axioms SJ.Props.C09.c09_io_ignore_refines
+#print axioms SJ.Props.C09.c09_str_readers_agree
+#print axioms SJ.Props.C09.c09_str_readers_positions
+#print axioms SJ.Props.C09.c09_strread_slice
+#print axioms SJ.Props.C09.c09_hex_escape_cut
